@@ -189,6 +189,16 @@ static void build_pca(vh_ctx *c, slot *s)
   PCAMODEL *m; matrix *x; size_t lim;
   s->n = (size_t)vh_int(c, 3, 8); s->p = (size_t)vh_int(c, 2, 5);
   s->scaling = pick_scaling(c, s->k10, 1);
+  /* boundary lengths (third seeded wave): the writer stores every field as one column of numbers, so any blocking of the INSERTs shows at
+     particular lengths.  Every 12th PCA model is wide: its variable count walks a list of round numbers and their neighbours (the stored
+     vectors then have p, p + 2 (loadings incl. the two dimensions) ... numbers); models of "different sizes" are not bounded by the quantifier. */
+  if (c->idx % 12 == 5) {
+    static const size_t B[] = { 62, 64, 98, 100, 126, 128, 198, 200, 248, 250, 254, 256, 298, 300, 398, 400, 498, 500, 510, 512, 598, 600, 748, 750, 998, 1000, 1022, 1024 };
+    size_t nb = sizeof B / sizeof B[0], pick = (size_t)((c->idx / 12) % (long)(nb * 3));
+    s->p = B[pick / 3] + (pick % 3) - 1;          /* B-1, B, B+1 */
+    s->n = 3;
+    vh_obs("wide_pca_models_at_boundary_lengths", 1);
+  }
   lim = s->n - 1 < s->p ? s->n - 1 : s->p; if (lim > 3) lim = 3;
   s->ncomp = (size_t)vh_int(c, 1, (long)lim);
   x = gen_data(c, s->n, s->p, s->k10, s->scaling == 5);
